@@ -21,9 +21,12 @@ def gen_workload(rng, n):
     pool_c = [GC.gen_constraint(rng, GC.gen_pool(rng, locals_=False), maxg=2, maxc=2) for _ in range(10)]
     pool_v = [GV.gen_version(rng)[0] for _ in range(10)] + ["1.0", "1.0.0", "v1.0", "1.0+L", "1.0+l"]
     env = dict(MI.env_grid("thorough")[7]); env["extra"] = list(env["extra"])
+    pool_r = ["requests>=2.0", 'Foo_Bar[extra1]>=1.0,<2; python_version >= "3.8"', "x @ https://example.com/a-1.0.tar.gz", "y @ git+https://github.com/x/y.git@main#subdirectory=sub",
+              "re.quests (>=2.0,!=2.1)", "pkg[a,b]==1.*; extra == 'a' and sys_platform != 'win32'"] + [f"dep{i}>=1.{i}; {m}" for i, m in enumerate(pool_m[:6])]
     for _ in range(n):
         k = rng.random()
-        if k < 0.1: calls.append(["version", rng.choice(pool_v)])
+        if k < 0.08: calls.append([rng.choice(["requirement", "dependency"]), rng.choice(pool_r)])
+        elif k < 0.12: calls.append(["version", rng.choice(pool_v)])
         elif k < 0.2: calls.append(["constraint", rng.choice(pool_c)])
         elif k < 0.35: calls.append([rng.choice(["cintersect", "cunion", "cdifference"]), rng.choice(pool_c), rng.choice(pool_c)])
         elif k < 0.5: calls.append(["marker", rng.choice(pool_m)])
